@@ -191,6 +191,14 @@ def run_obligation(spec):
                     if not eq(got2[j], lam[e], "poisson_params(return_edge_sum)%r" % (e,)):
                         break
                 if res["status"] == "DISCHARGED":
+                    # the same model is asked about a second incidence matrix of the same shape and number of entries
+                    # (columns in reverse order): no result of the first call may be reused
+                    hy2 = list(reversed(hyes))
+                    got3 = m.poisson_params(incidence(N, hy2))
+                    for j, e in enumerate(hy2):
+                        if not eq(got3[j], lam[e], "poisson_params(second incidence of the same shape)%r" % (e,)):
+                            break
+                if res["status"] == "DISCHARGED":
                     for j, e in enumerate(hyes[:6]):
                         for k in range(K):
                             s_ = 0
